@@ -1,4 +1,5 @@
 """Area asn1 (C07, C06): DER thresholds / masks / shifts of _asn1.py, tag numbers, CMS OIDs and versions."""
+from ..flow import Flow
 from ..kernels import Kernel as K
 
 Z, B = "Z", "bool"
@@ -100,4 +101,60 @@ CONSTS = [
     ("c_pd_sid_name", _B, "ProtectionDescriptorType.SID.name", "str"),
     ("c_oid_aes256_wrap", "dpapi_ng._crypto", "AlgorithmOID.AES256_WRAP.value", "str"),
     ("c_oid_aes256_gcm", "dpapi_ng._crypto", "AlgorithmOID.AES256_GCM.value", "str"),
+]
+
+# whole functions as Prelude/PyAst syntax (gen/F_asn1.v). Part "der" (_asn1.py): world coq/Flow/World_asn1.v, tie theorems in
+# coq/Proofs/Flow_asn1_*.v. APPEND ONLY (two engineers edit this list).
+FLOWS = [
+    Flow("k_flow_universal_tag", A, "ASN1Tag.universal_tag", props=("C07",)),
+    Flow("k_flow_pack_asn1", A, "_pack_asn1", props=("C07",)),
+    Flow("k_flow_pack_asn1_boolean", A, "_pack_asn1_boolean", props=("C07",)),
+    Flow("k_flow_pack_asn1_enumerated", A, "_pack_asn1_enumerated", props=("C07",)),
+    Flow("k_flow_pack_asn1_generalized_time", A, "_pack_asn1_generalized_time", props=("C07",)),
+    Flow("k_flow_pack_asn1_integer", A, "_pack_asn1_integer", props=("C07",)),
+    Flow("k_flow_pack_asn1_octet_string", A, "_pack_asn1_octet_string", props=("C07",)),
+    Flow("k_flow_pack_asn1_object_identifier", A, "_pack_asn1_object_identifier", props=("C07",)),
+    Flow("k_flow_pack_asn1_utf8_string", A, "_pack_asn1_utf8_string", props=("C07",)),
+    Flow("k_flow_encode_object_identifier", A, "_encode_object_identifier", props=("C07",)),
+    Flow("k_flow_pack_asn1_octet_number", A, "_pack_asn1_octet_number", props=("C07",)),
+    Flow("k_flow_unpack_asn1_octet_number", A, "_unpack_asn1_octet_number", props=("C07",)),
+    Flow("k_flow_read_asn1_header", A, "_read_asn1_header", props=("C07",)),
+    Flow("k_flow_read_asn1_boolean", A, "_read_asn1_boolean", props=("C07",)),
+    Flow("k_flow_read_asn1_enumerated", A, "_read_asn1_enumerated", props=("C07",)),
+    Flow("k_flow_read_asn1_generalized_time", A, "_read_asn1_generalized_time", props=("C07",)),
+    Flow("k_flow_read_asn1_integer", A, "_read_asn1_integer", props=("C07",)),
+    Flow("k_flow_read_asn1_object_identifier", A, "_read_asn1_object_identifier", props=("C07",)),
+    Flow("k_flow_read_asn1_octet_string", A, "_read_asn1_octet_string", props=("C07",)),
+    Flow("k_flow_read_asn1_sequence", A, "_read_asn1_sequence", props=("C07",)),
+    Flow("k_flow_read_asn1_set", A, "_read_asn1_set", props=("C07",)),
+    Flow("k_flow_read_asn1_utf8_string", A, "_read_asn1_utf8_string", props=("C07",)),
+    Flow("k_flow_validate_tag", A, "_validate_tag", props=("C07",)),
+    Flow("k_flow_reader_init", A, "ASN1Reader.__init__", props=("C07",)),
+    Flow("k_flow_reader_bool", A, "ASN1Reader.__bool__", props=("C07",)),
+    Flow("k_flow_reader_peek_header", A, "ASN1Reader.peek_header", props=("C07",)),
+    Flow("k_flow_reader_skip_value", A, "ASN1Reader.skip_value", props=("C07",)),
+    Flow("k_flow_reader_get_remaining_data", A, "ASN1Reader.get_remaining_data", props=("C07",)),
+    Flow("k_flow_reader_read_boolean", A, "ASN1Reader.read_boolean", props=("C07",)),
+    Flow("k_flow_reader_read_enumerated", A, "ASN1Reader.read_enumerated", props=("C07",)),
+    Flow("k_flow_reader_read_generalized_time", A, "ASN1Reader.read_generalized_time", props=("C07",)),
+    Flow("k_flow_reader_read_integer", A, "ASN1Reader.read_integer", props=("C07",)),
+    Flow("k_flow_reader_read_object_identifier", A, "ASN1Reader.read_object_identifier", props=("C07",)),
+    Flow("k_flow_reader_read_octet_string", A, "ASN1Reader.read_octet_string", props=("C07",)),
+    Flow("k_flow_reader_read_set", A, "ASN1Reader.read_set", props=("C07",)),
+    Flow("k_flow_reader_read_sequence", A, "ASN1Reader.read_sequence", props=("C07",)),
+    Flow("k_flow_reader_read_utf8_string", A, "ASN1Reader.read_utf8_string", props=("C07",)),
+    Flow("k_flow_writer_init", A, "ASN1Writer.__init__", props=("C07",)),
+    Flow("k_flow_writer_enter", A, "ASN1Writer.__enter__", props=("C07",)),
+    Flow("k_flow_writer_exit", A, "ASN1Writer.__exit__", props=("C07",)),
+    Flow("k_flow_writer_push_sequence", A, "ASN1Writer.push_sequence", props=("C07",)),
+    Flow("k_flow_writer_push_set", A, "ASN1Writer.push_set", props=("C07",)),
+    Flow("k_flow_writer_write_boolean", A, "ASN1Writer.write_boolean", props=("C07",)),
+    Flow("k_flow_writer_write_enumerated", A, "ASN1Writer.write_enumerated", props=("C07",)),
+    Flow("k_flow_writer_write_generalized_time", A, "ASN1Writer.write_generalized_time", props=("C07",)),
+    Flow("k_flow_writer_write_integer", A, "ASN1Writer.write_integer", props=("C07",)),
+    Flow("k_flow_writer_write_octet_string", A, "ASN1Writer.write_octet_string", props=("C07",)),
+    Flow("k_flow_writer_write_object_identifier", A, "ASN1Writer.write_object_identifier", props=("C07",)),
+    Flow("k_flow_writer_write_utf8_string", A, "ASN1Writer.write_utf8_string", props=("C07",)),
+    Flow("k_flow_writer_write_raw", A, "ASN1Writer.write_raw", props=("C07",)),
+    Flow("k_flow_writer_get_data", A, "ASN1Writer.get_data", props=("C07",)),
 ]
